@@ -9,9 +9,9 @@ def bmc(init, maxc, steps, tier, paths=False, shrinkw=False, final=False, timeou
              vra='sc' if sc else {'MAXLOC': 3 * nodes, 'MAXMSG': steps + pre + 3, 'MAXTHR': 2, 'MAXOBJ': steps + pre + 2 + nodes},
              bounds='initial capacity %d, maximum %d, ' % (init, maxc) + ('%d producer step(s) first, then ' % pre if pre else '') + ('at most %d nodes, ' % nodes) + ('sequentially consistent latest-value atomics, ' if sc else 'release/acquire shim, ') + '%d scheduler steps (producer:' % steps + ' write of symbolic size 1..max+1 with growth as needed, or shrink to any target; consumer: read with node switch/free, optional commit_read)',
              what='record stream across node switches, old node drained before the new one, retired node never accessed (CBMC deallocated-object checks + dead-atomic check + race detector ordering the delete after the producer\'s last access), capacity <= max, oversize => error, growth beyond max => nullptr without allocation, shrink semantics, ReadResult fields')
-QUERIES = [bmc(2, 8, 5, 'quick', sc=True), bmc(2, 4, 2, 'quick', nodes=2, pre=2, timeout=290), bmc(2, 8, 2, 'quick', sc=True, shrinkw=True, final=True, pre=2),
+QUERIES = [bmc(2, 8, 5, 'quick', sc=True), bmc(2, 4, 2, 'quick', nodes=2, pre=2, timeout=290), bmc(2, 8, 2, 'quick', sc=True, shrinkw=True, final=True, pre=2), bmc(2, 6, 4, 'quick', sc=True), bmc(2, 12, 5, 'thorough', sc=True, timeout=1700),
            bmc(2, 4, 3, 'thorough', nodes=2, pre=1, timeout=1700), bmc(2, 8, 7, 'thorough', sc=True, timeout=1700), bmc(4, 16, 6, 'thorough', sc=True, timeout=1700), bmc(2, 8, 4, 'thorough', nodes=3, pre=1, timeout=1700)]
-BOUNDS = 'initial capacity 2/4, maximum 4/8/16, 4-7 steps'
+BOUNDS = 'initial capacity 2/4, maximum 4/6/8/12/16 (power-of-two and not), 4-7 steps'
 OUTSIDE = 'allocation failure, huge pages, capacities near 2^63 (capacity*2 overflow), runs longer than the bound'
 ASSUMPTIONS = ['mmap/munmap and pointer alignment in _alloc_aligned/_free_aligned replaced by malloc/free of the requested size', 'QUILL_THROW is a fatal error in this (no-exceptions) build; it is asserted to happen exactly for records larger than the maximum']
 MANIFEST = {
